@@ -11,6 +11,18 @@ Tr == ndJsonDeserialize(IOEnv.TRACE)
 
 VARIABLES l, nbad
 
+Cell(o) == (IF o = "f" THEN 1 ELSE IF o = "g" THEN 2 ELSE 3) * 1000 + 1
+LifeRun(ev) ==
+    LRun(InitCells(<<[r |-> 1, els |-> IpfEls(ev.pre.f)], [r |-> 2, els |-> IpfEls(ev.pre.g)], [r |-> 3, els |-> IpfEls(ev.pre.h)]>>,
+                   ev.life.ext), ev.life.evs, 1)
+\* "valid but unspecified" still means valid: a wrapper that reports non-empty must hold a LIVE target. A wrapper whose
+\* projection says "holds a non-trivial capture" while the lifetime events of this very call destroyed that capture
+\* (and did not construct a new one there) is non-empty with a dead capture.
+DeadCapture(ev) ==
+    LET run == LifeRun(ev) IN
+    run.bad = 0 /\ \E o \in {"f", "g", "h"} :
+        ev.post[o].e = 1 /\ NonTrivialT(ev.post[o].t) /\ Get(run.f, Cell(o)) = DEAD
+
 LifeVerdict(ev) ==
     LET owners0 == <<[r |-> 1, els |-> IpfEls(ev.pre.f)], [r |-> 2, els |-> IpfEls(ev.pre.g)], [r |-> 3, els |-> IpfEls(ev.pre.h)]>>
         owners1 == <<[r |-> 1, els |-> IpfEls(ev.post.f)], [r |-> 2, els |-> IpfEls(ev.post.g)], [r |-> 3, els |-> IpfEls(ev.post.h)]>>
@@ -25,11 +37,15 @@ JudgeIpf(ev) ==
     \* the projected state (bool + probe call) is not a wrapper state at all: e.g. bool says "not empty" but a call
     \* reaches no target, or the capture reads a value no history stored - an observation about the implementation
     ELSE IF ~(LegalW(ev.pre.f) /\ LegalW(ev.pre.g) /\ LegalW(ev.pre.h)) THEN "state"
+    ELSE IF "life" \in DOMAIN ev /\ DeadCapture(ev) THEN "state"
     ELSE IF ~IpfPost(ev.op, ev.o, ev.x, ev.pre, ev.post, ev.ret, ev.calls, ev.handler) THEN
             (IF ev.op = "call" THEN "call" ELSE "post")
     ELSE IF ~IpfObsOK(ev.obs, ev.post) THEN "obs"
-    ELSE IF "life" \in DOMAIN ev THEN LifeVerdict(ev)
     ELSE "ok"
+
+\* the lifetime verdict is reported independently of the behavioural one (a call can break both; C03 keeps life-*)
+JudgeLife(ev) ==
+    IF ev.fam = "ipf" /\ "life" \in DOMAIN ev /\ IpfPre(ev.op, ev.o, ev.x, ev.pre) THEN LifeVerdict(ev) ELSE "ok"
 
 Judge(ev) ==
     CASE ev.fam = "ipf" -> JudgeIpf(ev)
@@ -52,10 +68,10 @@ Init == l = 1 /\ nbad = 0
 Next ==
     /\ l <= Len(Tr)
     /\ l' = l + 1
-    /\ LET v == Judge(Tr[l]) IN
-       IF v = "ok" THEN nbad' = nbad
-       ELSE /\ nbad' = nbad + 1
-            /\ PrintT(<<"DEV", l, v, Expected(Tr[l])>>)
+    /\ LET v == Judge(Tr[l]) lf == JudgeLife(Tr[l]) IN
+       /\ nbad' = nbad + (IF v = "ok" THEN 0 ELSE 1) + (IF lf = "ok" THEN 0 ELSE 1)
+       /\ (v # "ok" => PrintT(<<"DEV", l, v, Expected(Tr[l])>>))
+       /\ (lf # "ok" => PrintT(<<"DEV", l, lf, "-">>))
 
 Spec == Init /\ [][Next]_<<l, nbad>>
 Consumed == TLCGet("stats").diameter - 1 = Len(Tr)
